@@ -384,7 +384,7 @@ class Executor:
                     continue
                 cells = [self.store[(oid, off + i)] for i in range(n)]
             if self.access_log is not None:
-                self.access_log.append((self.task, self.guard, oid, off, n, False))
+                self.access_log.append((self.task, self.guard, oid, off, n, False, len(self.events)))
             if res is None:
                 res = cells
             else:
@@ -407,7 +407,7 @@ class Executor:
             if off + len(cells) > info["n"]:
                 continue
             if self.access_log is not None:
-                self.access_log.append((self.task, b_and(self.guard, g), oid, off, len(cells), True))
+                self.access_log.append((self.task, b_and(self.guard, g), oid, off, len(cells), True, len(self.events)))
             for i, c in enumerate(cells):
                 k = (oid, off + i)
                 if g is True:
